@@ -208,6 +208,25 @@ ok = ok and same('both filter identically', c.filter(doc).result, d.filter(doc).
 return ok
 """
         out.append(mk_case(f"c09.param_named_literal.{cid}", [("a", "int"), ("u1", "int")], body, pre=[f"BU({L}, a, u1)"], stubs=["sym_repr"]))
+    # un-escaped literal mappings whose single key merely begins with (or contains) 'path' are literals, not data paths
+    for cid, spec, dsl, doc in [
+        ("paths", "{'value.equal_to': {'paths': [a, 'b']}}", "Value.equal_to({'paths': [a, 'b']})", "[{'paths': [u1, 'b']}, u1]"),
+        ("pathname.in_list", "{'value.in': [{'pathname': 'ab'}, a]}", "Value.in_([{'pathname': 'ab'}, a])", "[{'pathname': 'ab'}, u1]"),
+        ("path_to.in_kwargs", "{'value.items_contain': {'cfg': {'path_to': [a]}}}", "Value.items_contain(cfg={'path_to': [a]})", "[{'cfg': {'path_to': [u1]}}, u1]"),
+        ("PathList", "{'value.equal_to': {'PathList': ['x']}}", "Value.equal_to({'PathList': ['x']})", "[{'PathList': ['x']}, u1]"),
+        ("mypath", "{'value.not_equal_to': {'mypath': [a]}}", "Value.not_equal_to({'mypath': [a]})", "[{'mypath': [u1]}, u1]"),
+        ("path_dash", "{'value.equal_to': {'path-like': a}}", "Value.equal_to({'path-like': a})", "[{'path-like': u1}, u1]"),
+    ]:
+        body = f"""
+spec = {spec}
+d = {dsl}
+c = ConditionLike.from_spec(spec)
+doc = {doc}
+ok = note('parsed condition equals the DSL-built one', c == d and type(c) is type(d))
+ok = ok and same('both filter identically', c.filter(doc).result, d.filter(doc).result)
+return ok
+"""
+        out.append(mk_case(f"c09.pathlike_literal.{cid}", [("a", "int"), ("u1", "int")], body, pre=[f"BU({L}, a, u1)"], stubs=["sym_repr"]))
     # several specs sharing one argument object (a YAML anchor / alias, a shared Python list): each still means its own DSL term
     for cid, setup, spec, dsl, doc in [
         ("dtype_then_in", "names = ['str', 'map']", "{'or': [{'value.dtype.in': names}, {'value.in': names}]}", "Value.dtype.in_([str, dict]) | Value.in_(['str', 'map'])", "[u1, 'map', {}, 'x']"),
